@@ -58,6 +58,7 @@ func (e *Exec) doCall(ins ssa.CallInstruction, guard string) Value {
 }
 
 func typeKeyFull(t types.Type) string {
+	t = types.Unalias(t)
 	if n, ok := t.(*types.Named); ok && n.Obj().Pkg() != nil {
 		return n.Obj().Pkg().Path() + "." + n.Obj().Name()
 	}
@@ -391,7 +392,7 @@ func (e *Exec) implTypes(iface types.Type) []types.Type {
 
 func (e *Exec) invoke(c *ssa.CallCommon, recv Value, args []Value, guard string) Value {
 	s := e.st
-	it := c.Value.Type()
+	it := types.Unalias(c.Value.Type())
 	// non-module interfaces: contract of the interface method itself
 	named, _ := it.(*types.Named)
 	inMod := named != nil && named.Obj().Pkg() != nil && strings.HasPrefix(named.Obj().Pkg().Path(), repoModule)
